@@ -498,6 +498,31 @@ theorem span_operators_mixed (p q : Period) (h : p.freq ≠ q.freq) :
     Span.lshift (some (.res p)) (some (.res q)) = .error .mixedFreq := by
   simp [Span.rshift, Span.lshift, Span.make, h, Ne.symm h, throw, throwThe, MonadExceptOf.throw]
 
+/-! ## 6a. Slices of a span -/
+
+/-- every element of a slice is an element of the span at a position selected by the slice; nothing else is returned -/
+theorem span_slice_mem (s : Span) (start stop step : Option Int) (l out : List Period) (a b st : Int)
+    (hl : s.iter = .ok (some l)) (hi : sliceIndices l.length start stop step = some (a, b, st))
+    (ho : s.getSlice start stop step = .ok (some out)) (p : Period) :
+    p ∈ out ↔ ∃ i : Nat, ∃ h : i < l.length, l[i] = p ∧ (i : Int) ∈ pyRange a b st := by
+  simp only [Span.getSlice, hl, hi, bind, Except.bind, pure, Except.pure] at ho
+  cases ho
+  simp only [List.mem_map, List.mem_filter, List.contains_iff_mem, Prod.exists]
+  constructor
+  · rintro ⟨q, i, ⟨hmem, hin⟩, rfl⟩
+    obtain ⟨h1, h2⟩ := List.mem_zipIdx' hmem
+    exact ⟨i, h1, h2.symm, by simpa using hin⟩
+  · rintro ⟨i, h, rfl, hin⟩
+    refine ⟨l[i], i, ⟨?_, by simpa using hin⟩, rfl⟩
+    exact List.mem_zipIdx_iff_getElem?.2 (by simp [h])
+
+example : sliceIndices 5 (some (-2)) none none = some (3, 5, 1) ∧ sliceIndices 5 none none (some (-1)) = some (4, -1, -1) ∧
+    sliceIndices 5 (some 9) (some (-9)) (some (-2)) = some (4, -1, -2) ∧ sliceIndices 5 none none (some 0) = none := by decide
+example : (⟨.res ⟨.Q, 10⟩, .res ⟨.Q, 15⟩, 1⟩ : Span).getSlice (some 1) none (some 2)
+    = .ok (some [⟨.Q, 11⟩, ⟨.Q, 13⟩, ⟨.Q, 15⟩]) := by decide
+example : (⟨.res ⟨.Q, 10⟩, .res ⟨.Q, 13⟩, 1⟩ : Span).getSlice none none (some (-1))
+    = .ok (some [⟨.Q, 10⟩, ⟨.Q, 11⟩, ⟨.Q, 12⟩, ⟨.Q, 13⟩]) := by decide
+
 /-! ## 6b. The encompassing span is the min of the starts and the max of the ends -/
 
 theorem foldl_min_spec (f : Freq) : ∀ (ps : List Period) (p : Period), p.freq = f → (∀ x ∈ ps, x.freq = f) →
